@@ -307,6 +307,25 @@ def matcher_objects(ctx, pool, rng):
                                 ctx.disagree(f'{what} of a compiled matcher is not equal or behaves differently',
                                              {'mode': 'flag-table', 'module': mod.__name__, 'flags': [n1] + list(extra), 'patterns': repr(pats), 'why': why})
                                 break
+    # matchers that differ only in a non-pattern attribute (REALPATH, FOLLOW) accept different names and are never equal
+    if getattr(ctx, 'shard', 0) == 0:
+        probe = ['/zz-no-such-dir/x', '/zz-no-such-dir/y/x', 'L/a', 'd/a', 'L/e/ab', 'd/e/ab']
+        for pat in ('/zz*/**', '/zz-no-such-dir/*', '/**/x', '**/a*', '**/ab', b'/zz*/**'):
+            for fa, fb in ((G.GLOBSTAR, G.GLOBSTAR | G.REALPATH), (G.GLOBSTAR | G.REALPATH, G.GLOBSTAR | G.REALPATH | G.FOLLOW),
+                           (G.GLOBSTAR | G.DOTGLOB, G.GLOBSTAR | G.DOTGLOB | G.REALPATH)):
+                try:
+                    ma, mb = G.compile(pat, flags=fa), G.compile(pat, flags=fb)
+                    pr = [x.encode() for x in probe] if isinstance(pat, bytes) else probe
+                    with T.Tree(TREE, 'c19e-') as tr_:
+                        rd = os.fsencode(tr_.root) if isinstance(pat, bytes) else tr_.root
+                        aa = [ma.match(x, root_dir=rd) for x in pr]
+                        bb = [mb.match(x, root_dir=rd) for x in pr]
+                except Exception:  # noqa: BLE001
+                    continue
+                ctx.count('matcher_object_checks')
+                if aa != bb and (ma == mb or not (ma != mb)):
+                    ctx.disagree('two matchers compare equal although they accept different names',
+                                 {'mode': 'attribute-pairs', 'pattern': repr(pat), 'flags_a': fa, 'flags_b': fb, 'answers_a': aa, 'answers_b': bb})
     # never equal when they accept different names
     for i in range(len(built)):
         for j in range(i + 1, len(built)):
